@@ -245,6 +245,16 @@ def check_backends(res, Q, wp_rev, label, rc, rng, adversarial=False):
     except Exception:  # noqa: BLE001
         checked_ok = False
         res.count("checked-exponentiator-raised")
+    # first-order accuracy bound of any diagonalisation-based exponential: (relative error with which the
+    # decomposition reproduces Q) x ||Qt||. Only granted when the library's own precision test accepts the matrix;
+    # when it rejects it, 'checked' must raise and 'either' must have switched to Pade, so no allowance then.
+    recon_rel = 0.0
+    if checked_ok:
+        try:
+            r_, v_ = np.linalg.eig(Q)
+            recon_rel = float(np.abs(Q - (v_ * r_) @ np.linalg.inv(v_)).max() / max(1.0, np.abs(Q).max()))
+        except Exception:  # noqa: BLE001
+            recon_rel = 0.0
     backends = [("Fast", mx.FastExponentiator), ("Checked", mx.CheckedExponentiator), ("Pade", mx.PadeExponentiator), ("Taylor", mx.TaylorExponentiator), ("Robust", mx.RobustExponentiator)]
     if wp_rev is not None and wp_rev.min() > 0:
         backends.append(("SemiSymmetric", lambda q: mx.SemiSymmetricExponentiator(wp_rev, q)))
@@ -278,7 +288,10 @@ def check_backends(res, Q, wp_rev, label, rc, rng, adversarial=False):
             # G: any exponential of a matrix with ||Qt|| ~ 1e7 (parameters parked at the 1e6 bound) carries absolute
             # rounding error of order eps*||Qt||, scipy's included (Pade and eigen then differ from scipy, and from each
             # other, by ~1e-8): the tolerance grows with the norm
-            tol = max(1e-8, 2e-14 * float(np.abs(Q * t).sum(axis=1).max()))
+            norm_ = float(np.abs(Q * t).sum(axis=1).max())
+            tol = max(1e-8, 1e-13 * norm_)
+            if name in ("Fast", "Checked", "SemiSymmetric"):
+                tol = max(tol, 10 * recon_rel * norm_)
             if d > (1e-5 if name == "Taylor" else tol):
                 if name in ("Fast", "SemiSymmetric") and not checked_ok:
                     res.refused += 1  # G: unchecked eigen back-end on a matrix the checked one rejects
@@ -307,7 +320,11 @@ def check_backends(res, Q, wp_rev, label, rc, rng, adversarial=False):
             res.evals += 1
             res.count(f"setting:{setting}")
             d = float(np.abs(P - ref).max())
-            if d > max(1e-8, 2e-14 * float(np.abs(Q * t).sum(axis=1).max())):
+            norm_ = float(np.abs(Q * t).sum(axis=1).max())
+            tol = max(1e-8, 1e-13 * norm_)
+            if setting != "pade":
+                tol = max(tol, 10 * recon_rel * norm_)
+            if d > tol:
                 if setting == "eigen" and not checked_ok:
                     res.refused += 1
                     continue
